@@ -25,7 +25,7 @@ for d in sorted(glob.glob(os.path.join(ROOT, "seeded", "*", "meta.json"))):
     else:
         missed = h.startswith("First run: M") or "harness error" in h
     rows.append("| %s | %s | %s | %s%s |" % (name, short.replace("|", "/"), ", ".join(m["caught_by"]) or "-",
-                                            "; ".join(first), " (missed at first, see below)" if missed else ""))
+                                            "; ".join(first), " (missed at first, see above)" if missed else ""))
 print("| seed | what was changed (author's note, abridged) | caught by | first report (check: clause / kind) |")
 print("|---|---|---|---|")
 print("\n".join(rows))
